@@ -5,6 +5,7 @@ import (
 	"encoding/binary"
 	"fmt"
 	"hash/crc32"
+	"verif/internal/ev"
 
 	"pgregory.net/rapid"
 )
@@ -119,6 +120,35 @@ func JPEGTail(rt *rapid.T) []byte {
 	return append(t, 0xFF, 0xD9)
 }
 
+// Edge describes padding that moves the embedded TIFF block to a file offset next to a multiple of a
+// reader buffer size (4 KiB bufio readers, 1 KiB / 2 KiB scratch buffers): look-aheads, discards and
+// refills of the streaming readers then straddle a buffer boundary. The padding is format-valid
+// (a JPEG COM segment, a PNG tEXt chunk, an ISOBMFF free box) and made of spaces (no accidental signature).
+type Edge struct {
+	On         bool
+	Unit, K, D int
+}
+
+// DrawEdge decides once per wrapper whether, and where, the block is moved.
+func DrawEdge(rt *rapid.T, label string) Edge {
+	if !Chance(rt, label+".edge", 0.15) {
+		return Edge{}
+	}
+	ev.GenClass(label + "-block-at-buffer-edge")
+	return Edge{On: true, Unit: rapid.SampledFrom([]int{4096, 4096, 4096, 1024, 2048}).Draw(rt, label+".edge.unit"), K: rapid.SampledFrom([]int{1, 1, 2, 3}).Draw(rt, label+".edge.k"), D: rapid.IntRange(-48, 48).Draw(rt, label+".edge.d")}
+}
+
+// pad returns how many bytes to insert so that a block now at off lands at K*Unit+D (at least min bytes).
+func (e Edge) pad(off, min int) int {
+	p := e.K*e.Unit + e.D - off
+	for p < min {
+		p += e.Unit
+	}
+	return p
+}
+
+func spaces(n int) []byte { return bytes.Repeat([]byte{' '}, n) }
+
 // JPEGWrap draws the surroundings once and returns a function embedding any
 // TIFF payload as APP1-Exif among the same random segments.
 func JPEGWrap(rt *rapid.T) func(payload []byte) []byte {
@@ -130,12 +160,26 @@ func JPEGWrap(rt *rapid.T) func(payload []byte) []byte {
 		after = append(after, OtherSeg(rt, "jpeg.a"))
 	}
 	tail := JPEGTail(rt)
+	edge := DrawEdge(rt, "jpeg")
 	return func(payload []byte) []byte {
-		segs := append([]Seg{}, before...)
-		segs = append(segs, Seg{Marker: 0xE1, Payload: append([]byte(ExifPrefix), payload...), Kind: "exif"})
-		segs = append(segs, after...)
-		segs = append(segs, DQT())
-		return JPEGStream(segs, tail)
+		build := func(pad int) []byte {
+			var segs []Seg
+			if pad > 0 {
+				segs = append(segs, Seg{Marker: 0xFE, Payload: spaces(pad - 4), Kind: "pad"})
+			}
+			segs = append(segs, before...)
+			segs = append(segs, Seg{Marker: 0xE1, Payload: append([]byte(ExifPrefix), payload...), Kind: "exif"})
+			segs = append(segs, after...)
+			segs = append(segs, DQT())
+			return JPEGStream(segs, tail)
+		}
+		out := build(0)
+		if edge.On && len(payload) >= 8 {
+			if off := bytes.Index(out, payload); off > 0 {
+				out = build(edge.pad(off, 4))
+			}
+		}
+		return out
 	}
 }
 
@@ -170,8 +214,16 @@ func PNGWrap(rt *rapid.T) func(payload []byte) []byte {
 	idat := pngChunk("IDAT", rapid.SliceOfN(rapid.Byte(), 1, 200).Draw(rt, "png.idat"))
 	b, a := other("png.b"), other("png.a")
 	afterIDAT := rapid.Bool().Draw(rt, "png.exifAfterIDAT")
+	edge := DrawEdge(rt, "png")
 	return func(payload []byte) []byte {
 		out := append([]byte{}, head...)
+		if edge.On && len(payload) >= 8 {
+			off := len(head) + len(b) + 8
+			if afterIDAT {
+				off += len(idat)
+			}
+			out = append(out, pngChunk("tEXt", append([]byte("Comment\x00"), spaces(edge.pad(off, 20)-20)...))...)
+		}
 		out = append(out, b...)
 		if afterIDAT {
 			out = append(out, idat...)
@@ -297,7 +349,9 @@ func CR3Wrap(rt *rapid.T, edits ...func(moov, canon *Box)) func(cmt [4][]byte) (
 	traks := rapid.IntRange(0, 2).Draw(rt, "cr3.traks")
 	canonLast := Chance(rt, "cr3.canonLast", 0.3)
 	mdat := rapid.SliceOfN(rapid.Byte(), 64, 300).Draw(rt, "cr3.mdat")
-	return func(cmt [4][]byte) ([]byte, *Box) {
+	edge := DrawEdge(rt, "cr3")
+	edgeAt := rapid.IntRange(1, 2).Draw(rt, "cr3.edge.at") // (never between ftyp and moov: the CR3 entry points read the box after ftyp as moov, which is the layout every camera writes)
+	build := func(cmt [4][]byte, pad int) ([]byte, *Box) {
 		canon := &Box{Type: "uuid", Data: append([]byte{}, UUIDCanon...)}
 		add := func(b *Box) { canon.Kids = append(canon.Kids, b) }
 		cncv := make([]byte, 30)
@@ -314,6 +368,13 @@ func CR3Wrap(rt *rapid.T, edits ...func(moov, canon *Box)) func(cmt [4][]byte) (
 			binary.BigEndian.PutUint64(ctbo[16+20*i:], uint64(100*(i+1)))
 		}
 		add(&Box{Type: "CTBO", Data: ctbo})
+		var padBox *Box
+		if pad > 0 {
+			padBox = &Box{Type: "free", Data: spaces(pad - 8)}
+			if edgeAt == 2 { // inside the Canon box, in front of the CMT boxes
+				add(padBox)
+			}
+		}
 		for i, name := range []string{"CMT1", "CMT2", "CMT3", "CMT4"} {
 			if cmt[i] != nil {
 				add(&Box{Type: name, Data: cmt[i]})
@@ -332,15 +393,33 @@ func CR3Wrap(rt *rapid.T, edits ...func(moov, canon *Box)) func(cmt [4][]byte) (
 		if canonLast { // uuid after the other moov children
 			moov.Kids = append(moov.Kids[1:], moov.Kids[0])
 		}
+		if padBox != nil && edgeAt == 1 { // first child of moov
+			moov.Kids = append([]*Box{padBox}, moov.Kids...)
+		}
 		for _, e := range edits {
 			e(moov, canon)
 		}
-		top := []*Box{Ftyp("crx ", 1, "crx ", "isom"), moov}
-		top = append(top, &Box{Type: "mdat", Data: mdat})
+		top := []*Box{Ftyp("crx ", 1, "crx ", "isom")}
+		top = append(top, moov, &Box{Type: "mdat", Data: mdat})
 		var out []byte
 		root := &Box{Type: "file", Kids: top}
 		for _, b := range top {
 			out = append(out, b.Serialise(len(out))...)
+		}
+		return out, root
+	}
+	return func(cmt [4][]byte) ([]byte, *Box) {
+		out, root := build(cmt, 0)
+		if !edge.On {
+			return out, root
+		}
+		for _, c := range cmt {
+			if len(c) >= 8 {
+				if off := bytes.Index(out, c); off > 0 {
+					return build(cmt, edge.pad(off, 8))
+				}
+				break
+			}
 		}
 		return out, root
 	}
@@ -361,7 +440,19 @@ func HEIFWrap(rt *rapid.T, edits ...func(meta *Box)) func(payload []byte) []byte
 	if rapid.Bool().Draw(rt, "heif.free") {
 		free = fillerBox(rt, "heif.f")
 	}
-	return func(payload []byte) []byte {
+	edge := DrawEdge(rt, "heif")
+	edgeAt := rapid.IntRange(0, 2).Draw(rt, "heif.edge.at")
+	var build func(payload []byte, pad int) []byte
+	wrapped := func(payload []byte) []byte {
+		out := build(payload, 0)
+		if edge.On && len(payload) >= 8 {
+			if off := bytes.Index(out, payload); off > 0 {
+				out = build(payload, edge.pad(off, 8))
+			}
+		}
+		return out
+	}
+	build = func(payload []byte, pad int) []byte {
 		ft := Ftyp(brand[0], 0, brand[1], brand[2])
 		hdlr := &Box{Type: "hdlr", Full: true, Data: append(append(make([]byte, 4), []byte("pict")...), make([]byte, 13)...)}
 		pitm := &Box{Type: "pitm", Full: true, Data: []byte{0, 1}}
@@ -380,10 +471,21 @@ func HEIFWrap(rt *rapid.T, edits ...func(meta *Box)) func(payload []byte) []byte
 		// iloc with one extent for item 2 (offset filled after layout)
 		iloc := &Box{Type: "iloc", Full: true, Data: make([]byte, 2+2+2+2+2+4+4)}
 		meta.Kids = append(meta.Kids, iloc)
+		if pad > 0 && edgeAt == 0 { // last child of meta
+			meta.Kids = append(meta.Kids, &Box{Type: "free", Data: spaces(pad - 8)})
+		}
 		for _, e := range edits {
 			e(meta)
 		}
 		top := []*Box{ft, meta}
+		if pad > 0 && edgeAt == 1 { // between meta and mdat
+			top = append(top, &Box{Type: "free", Data: spaces(pad - 8)})
+		}
+		inMdat := 0
+		if pad > 0 && edgeAt == 2 { // inside mdat, in front of the item
+			inMdat = pad
+			mdat.Data = append(append(append(spaces(pad), pre...), item...), post...)
+		}
 		if free != nil {
 			top = append(top, &Box{Type: free.Type, Data: free.Data, Large: free.Large})
 		}
@@ -402,10 +504,11 @@ func HEIFWrap(rt *rapid.T, edits ...func(meta *Box)) func(payload []byte) []byte
 		binary.BigEndian.PutUint16(d[4:], 2) // item id
 		binary.BigEndian.PutUint16(d[6:], 0) // data reference index
 		binary.BigEndian.PutUint16(d[8:], 1) // extent count
-		binary.BigEndian.PutUint32(d[10:], uint32(mdat.PayloadStart+len(pre)))
+		binary.BigEndian.PutUint32(d[10:], uint32(mdat.PayloadStart+inMdat+len(pre)))
 		binary.BigEndian.PutUint32(d[14:], uint32(len(item)))
 		return serial()
 	}
+	return wrapped
 }
 
 // WrapLying moves a run of parent's children into a new box whose declared size is wrong (it states more
